@@ -4,15 +4,89 @@ import json, os
 ROOT = os.path.dirname(os.path.dirname(os.path.abspath(__file__)))
 ALL = ["C%02d" % i for i in range(1, 21)]
 
+W = "Trusted base: the simulated node of DESIGN.md section 4 (atomic RPCs, part/pay semantics, crash model), the harness's own HTLC classifier (scen.rs) and the third-party lightning-invoice parser; interleavings are those at .await points of a seeded current-thread runtime; wall clock reaches the plugin only through stored attempt times aged on a 5 s grid."
+
 CHECKS = {
+ "C01": dict(engine="WORLD", category="exploration", design="6 C01",
+   technique="stateful property-based testing: proptest-generated multi-lifetime scenarios against the real HtlcManager/ClnDatastore/PayPaymentProvider over a simulated node; invariant monitor at every resolve and pay",
+   text="Generated-input search (quick ~10^4, thorough ~10^5 scenarios): 1-3 payments, HTLCs carrying the invoice of another hash, late HTLCs, crashes and write faults; at every resolve the key must hash to the HTLC's own hash and stem from a completed part or Succeeded record; at every pay no held HTLC carrying that invoice may have another hash. Right level: the defect class (D1) needs a particular request shape plus a full lifecycle, which a generator reaches in every run.",
+   note=W),
+ "C02": dict(engine="WORLD", category="fault_enumeration", design="6 C02",
+   technique="stateful property-based testing with fault injection: generated schedules + systematic crash-point / write-fault enumeration (thorough) + read-fault profile (thorough); invariant monitor at every fail answer",
+   text="Every fail answer of a trampoline HTLC is checked against the node's part table and running pay commands at that instant, over generated interleavings (part resolutions between the RPCs of wait_payment, pay outcomes leaving parts pending, restarts onto pending records) and injected write faults; thorough adds every single crash point and write fault of 150 base histories and RPC read errors. Fund-loss properties need one bad ordering out of thousands, which is what schedule search is for.",
+   note=W+" Known findings K1/K3 (read faults only) are listed in known_findings.json."),
+ "C03": dict(engine="WORLD", category="exploration", design="6 C03",
+   technique="stateful property-based testing: invariant monitor over the arguments of every pay RPC versus the HTLCs held at that instant (u128 reference arithmetic)",
+   text="At every pay arrival: held sum >= amount + fee (u128), maxfee <= held sum - amount, amount_msat absent iff the invoice has an amount, bolt11 carried by a held HTLC; afterwards no counted HTLC is answered before the payment's fate is known. Generated amount multisets around the threshold (+-1), 1-5 parts, restarts, extreme policies (thorough).",
+   note=W),
+ "C04": dict(engine="WORLD", category="exploration", design="6 C04",
+   technique="stateful property-based testing: reference bound computed from the HTLCs held and the height told at the intent write, compared with maxdelay of every pay RPC",
+   text="maxdelay <= min(policy delta, sat(sat(min expiry - height told) - safety delta)) with heights advancing (notifications and silent changes) while the set is collected, expiries clustered around the boundaries, extreme delta pairs (thorough); a low-relative-expiry HTLC before funding must prevent the pay.",
+   note=W),
+ "C05": dict(engine="WORLD", category="fault_enumeration", design="6 C05",
+   technique="stateful property-based testing with crash-point enumeration: invariant monitor at every pay RPC against the node's sendpay table",
+   text="No pay while a part of that hash is pending/complete or another pay runs; at most one completed payment group per hash. Generated overlaps of two lifecycles, crashes around intent writes and pay, stored histories Free/Pending/Succeeded; thorough enumerates every crash point and write fault of 150 base histories.",
+   note=W),
+ "C06": dict(engine="WORLD+E2E+FUZZ", category="exploration", design="6 C06",
+   technique="property-based testing and fuzzing: byte-level request generators in WORLD (hang = unanswered after a fair drain in the model, panic hook), the same requests through the real binary (reply shape), libFuzzer campaign in thorough",
+   text="Arbitrary payload/metadata bytes (truncated varints at every width, oversized lengths), numeric extremes, up to 6 HTLCs per hash, write faults (quick) and read faults (thorough): after the fair drain every call has exactly one well-formed answer, no task panicked, incomplete sets are failed within one MPP timeout. The real binary decides the reply shape (JSON-RPC error replies, panics on stderr).",
+   note=W+" E2E uses real time only to bound waits (missing reply without a panic line = exit 2). Known finding K2 (todo!() on read fault) listed in known_findings.json."),
+ "C07": dict(engine="WORLD", category="exploration", design="6 C07",
+   technique="stateful property-based testing: per-instant batch monitor (all held HTLCs of a hash answered together, identically) and a reference rule for rejecting HTLCs",
+   text="Whenever one HTLC of a hash is answered, all HTLCs held for it are answered in the same instant with identical responses; a rejecting HTLC (conflicting invoice/amount, low expiry, low declared total) before funding means no pay for that lifecycle. 2-5 parts, rejecting HTLC at every position, arrivals while the state fetch is withheld.",
+   note=W),
+ "C08": dict(engine="WORLD", category="fault_enumeration", design="6 C08",
+   technique="stateful property-based testing with fault enumeration: invariant over (datastore, sendpay table) after every applied RPC effect, i.e. on every crash image",
+   text="After every applied effect: parts pending/complete => stored Pending or Succeeded; stored Pending at every pay; Free only written when nothing is live; Succeeded holds a 32-byte preimage of the key's hash. Generated interleavings of two lifecycles of one hash, crashes, every write-fault kind; thorough enumerates all crash points/write faults of 150 base histories.",
+   note=W),
+ "C09": dict(engine="WORLD", category="fault_enumeration", design="6 C09",
+   technique="fault enumeration + probe oracle: every crash point and single write fault of generated base histories, followed by a probe payment; fixpoint test of the stored image decides permanence",
+   text="For each base history: crash after every node-side effect (3 flavours) and every datastore write rejected / applied-but-reported-failed; after the drain a fully funded probe for the same invoice in a fresh lifetime must be resolved; a failing probe that leaves the stored image unchanged is a fixpoint, hence permanent. Random multi-crash histories in addition.",
+   note=W+" MPP timeout 0 is excluded (with it the plugin pays nothing at all)."),
+ "C10": dict(engine="WORLD", category="exploration", design="6 C10",
+   technique="property-based testing against a reference classifier: cartesian-biased single-HTLC scenarios, class equality and pay-argument checks",
+   text="invoice {amount, amountless} x signature {valid, explicit payee, invalid, not utf-8, not bolt11} x hints x hash {=, !=} x amount field {absent, equal, +-1, leading zeros, 9 bytes, empty, raw} x flag; expected class from a classifier written from the property text; oracle: continue/fail/held as expected, pay carries exactly invoice and amount, notification names the verifying key.",
+   note=W),
+ "C11": dict(engine="WORLD", category="exploration", design="6 C11",
+   technique="stateful property-based testing in virtual time: timing monitor on fail answers of incomplete sets (paused tokio clock, 5 s grid)",
+   text="Incomplete sets: answer 0x2019, no pay, t_fail in [t_fetch+T, t_fetch+T+1 s] for fresh hashes, <= t_recovery+T after a restart, immediate when the attempt is older than T+5 s. Timeouts 0-120 s, arrival patterns over ticks, restarts with downtimes on the grid.",
+   note=W+" One known finding (lifecycle-overlap race answering 0x2002) in known_findings.json."),
  "C12": dict(engine="PURE+WORLD", category="exploration", design="6 C12",
-   technique="property-based testing: proptest + fixed boundary grid against a u128 reference model, in an overflow-checking and a wrapping build",
-   text="Generated-input search: ~5*10^5 (quick) / ~7*10^6 (thorough) (base,ppm,total,amount) tuples, boundary-biased plus a fixed grid of special values, each evaluated by the real fee_sufficient compiled with and without overflow checks and compared with an exact 128-bit reference; failure encoding compared with the byte layout. Right level because the property is a pure function over a huge domain where the defects sit on arithmetic boundaries that a biased generator hits every run.",
-   note="Trusted: the u128 reference in harness/src/refmodel.rs; that the `pure` workspace member really is a wrapping build (asserted at run time). One known finding (conservative false when amount*ppm exceeds u64) is pinned by an existing unit test and listed in known_findings.json."),
+   technique="property-based testing: proptest + fixed boundary grid against a u128 reference model, in an overflow-checking and a wrapping build; WORLD monitor for the rejection bytes",
+   text="~5*10^5 (quick) / ~7*10^6 (thorough) (base,ppm,total,amount) tuples, boundary-biased plus a fixed grid, each evaluated by the real fee_sufficient compiled with and without overflow checks and compared with an exact 128-bit reference; failure encoding compared with the byte layout; in WORLD the first HTLC of a fresh payment failing the fee test / expiry gate must be answered 0x201a||configured policy.",
+   note="Trusted: the u128 reference in harness/src/refmodel.rs; that the `pure` workspace member really is a wrapping build (asserted at run time). One known finding (conservative false when amount*ppm exceeds u64) is pinned by an existing unit test and listed in known_findings.json. "+W),
+ "C13": dict(engine="WORLD+E2E", category="exploration", design="6 C13",
+   technique="property-based testing with a metamorphic relation: non-trampoline-only scenarios (continue, zero RPCs, byte-exact rewrite) and insertion of such HTLCs into base scenarios (observable trace unchanged)",
+   text="Generated non-trampoline classes incl. the only metadata shape that reaches the payload-rewrite branch; oracle: continue in the delivery instant, no RPC, empty datastore, rewritten payload = input records minus type 16; metamorphic: inserting them beside real payments changes neither RPC requests nor answers. Thorough repeats it through the real binary with an idle RPC socket.",
+   note=W),
+ "C14": dict(engine="WORLD", category="exploration", design="6 C14",
+   technique="differential testing: payment B alone versus B beside payment A frozen at a generated RPC (or on its timer); traces must be equal",
+   text="A's RPCs are withheld forever from its k-th on (k = 0..12 covers state fetch, intent writes, pay, list calls, waitsendpay, mark_* writes); B (race-free) must produce the identical observable trace and complete.",
+   note=W),
+ "C15": dict(engine="WORLD(unit)", category="exploration", design="6 C15",
+   technique="property-based testing + exhaustive small scope: real PayPaymentProvider<Rpc>::wait_payment against the simulated node, result compared with the sendpay table at return",
+   text="0-4 parts in arbitrary states, completions/failures at every position among the list and waitsendpay answers; all event sequences up to length 4/5 for 1-2 pending parts enumerated. Some(p) => a part is complete with p; None => nothing pending or complete; Err => violation (no RPC error injected).",
+   note="Trusted: node model for listsendpays (snapshot at answer) and waitsendpay (held while pending)."),
+ "C16": dict(engine="WORLD(unit)", category="exploration", design="6 C16",
+   technique="property-based testing + cartesian enumeration: pay outcome x part configuration x later resolution order against the real PayPaymentProvider<Rpc>::pay",
+   text="8 pay outcomes x 8 part configurations x 5 resolution orders x recipient fate enumerated, plus generated step sequences; Ok(p) => p preimage of a complete part; Err => nothing pending or complete.",
+   note="Only in this check the node may answer `failed` in any part configuration (the property quantifies over it)."),
+ "C17": dict(engine="WIRE+E2E", category="exploration", design="6 C17",
+   technique="property-based testing of the plugin driver over in-memory pipes: generated chunking, buffer sizes and handler completion orders; frame/reply oracle; real binary at trace log level",
+   text="Real cln_plugin Builder/driver over duplex pipes with 1..255-byte buffers; requests with numeric/string/non-ASCII ids, payloads with escaped newlines and multi-byte UTF-8, cuts inside separators and characters, handlers released in generated order. Oracle: invocations = requests once each in order; output = complete JSON frames; one matching reply per id. E2E: stdout of the binary (replies + log notifications) splits into complete JSON frames.",
+   note="In-process the logging layer is disabled (process-global subscriber); log/reply interleaving is observed only through the real binary."),
  "C18": dict(engine="PURE+FUZZ", category="exploration", design="6 C18",
    technique="property-based testing: exhaustive small-scope enumeration + proptest round-trip/differential against an independent BigSize/TLV reference codec; libFuzzer campaign in the thorough tier",
-   text="Exhaustive over all byte strings of length <=2 and over a 12-symbol varint-marker alphabet up to length 5/6, plus generated valid streams (every varint width, every truncation offset) and arbitrary record lists, through all three decoding entry points; oracle = no panic, decode equals an independent reference, byte-exact re-encoding, records round trip, tu64 equals big-endian value. Right level: the codec is a pure total function and its historic defect (truncated varint) lives at lengths the exhaustive part covers completely.",
+   text="Exhaustive over all byte strings of length <=2 and over a 12-symbol varint-marker alphabet up to length 5/6, plus generated valid streams (every varint width, every truncation offset) and arbitrary record lists, through all three decoding entry points; oracle = no panic, decode equals an independent reference, byte-exact re-encoding, records round trip, tu64 equals big-endian value.",
    note="Trusted: the strict reference codec in harness/src/refmodel.rs. Non-canonical encodings accepted by the decoder are outside the property and not judged."),
+ "C19": dict(engine="E2E", category="exploration", design="6 C19",
+   technique="property-based testing of the real binary: generated option assignments (boundary values, swapped/equal deltas) against a reference acceptance rule and a probe script reading the applied values back",
+   text="main() is reachable only through the binary. 29 fixed boundary configurations + generated ones; refusing configs must exit non-zero without init reply; accepted ones are probed: policy bytes in rejections, fee threshold, maxdelay with safety delta / policy cap, retry_for cap, MPP timeout (strict lower bound; upper bound only while the plugin demonstrably answers other requests), self-route-hint flag.",
+   note="Real time is involved: shallowest check; an expired wait without verdict is exit 2."),
+ "C20": dict(engine="WORLD+E2E", category="exploration", design="6 C20",
+   technique="stateful property-based testing in virtual time: real BlockWatcher against generated poll replies, notifications and failures; max-of-told reference model",
+   text="After every step current_height() must equal the maximum height told in this lifetime (startup, answered polls, notifications), and the next poll must arrive within 60 s of the previous answer, also after failed polls. Thorough checks the block_added wiring through the binary via the maxdelay of a following pay.",
+   note=W),
 }
 
 def main():
@@ -43,7 +117,11 @@ def main():
             "add_only": True,
         },
         "engines": [
-            {"name": "PURE", "path": "harness/src/props", "serves_properties": ["C12", "C18"], "kind_free_text": "proptest + exhaustive small scopes on functions of messages.rs / tlv.rs against reference models"},
+            {"name": "PURE", "path": "harness/src/props/c12.rs, c18.rs", "serves_properties": ["C12", "C18"], "kind_free_text": "proptest + exhaustive small scopes on functions of messages.rs / tlv.rs against reference models (refmodel.rs); `pure` crate = wrapping build"},
+            {"name": "WORLD", "path": "harness/src/world.rs, node.rs, scen.rs, monitors.rs", "serves_properties": ["C01","C02","C03","C04","C05","C06","C07","C08","C09","C10","C11","C12","C13","C14","C15","C16","C20"], "kind_free_text": "real HtlcManager + ClnDatastore + PayPaymentProvider<Rpc> + BlockWatcher against a simulated lightningd over a unix socket in a paused, seeded tokio runtime; scenario = proptest value (payments, HTLCs, schedule, faults, crashes); monitors = invariants at node-side instants"},
+            {"name": "WIRE", "path": "harness/src/props/c17.rs", "serves_properties": ["C17"], "kind_free_text": "real cln_plugin driver over in-memory duplex pipes with generated chunking and handler completion order"},
+            {"name": "E2E", "path": "harness/src/e2e.rs, props/c19.rs", "serves_properties": ["C06","C13","C17","C19","C20"], "kind_free_text": "the real binary target/debug/trampoline (rebuilt from /repo) on pipes, against the simulated node with an autopilot"},
+            {"name": "FUZZ", "path": "harness/fuzz", "serves_properties": ["C18","C06"], "kind_free_text": "cargo-fuzz/libFuzzer targets with the semantic oracle inside (thorough tier)"},
         ],
         "checks": checks,
         "not_applicable": na,
